@@ -11,7 +11,7 @@ from seed_matrix import sh, run_prop, snapshot_binary, PROPS, REPO, VERIF
 
 
 def main():
-    diffs = sys.argv[1:]
+    diffs = [os.path.abspath(d) for d in sys.argv[1:]]
     snapshot_binary()
     wt = tempfile.mkdtemp(prefix="refacwt.")
     os.rmdir(wt)
